@@ -495,7 +495,8 @@ def work_items(quick):
 
 def run(ctx):
     items, distinct = work_items(ctx.quick)
-    for dumped in ctx.pmap(_dispatch, ctx.shuffled(items)):
+    # quick tier: ~13 s of CPU in total; a small pool is robust against a loaded machine
+    for dumped in ctx.pmap(_dispatch, ctx.shuffled(items), workers=min(ctx.nworkers, 4) if ctx.quick else None):
         core.absorb(ctx, dumped)
     c = ctx.counters
     ctx.guard('sqlite cases accepted and read back', c.get('sqlite_cases_accepted', 0), 2000)
